@@ -117,3 +117,9 @@ Example C19_example :
      RNode (NDir [(0, NDir [(2, NDir [] 0 0)] 488 0);
                   (1, NDir [(2, NDir [(4, NFile [104; 105] 0 1000)] 0 0)] 0 0)] 0 0)].
 Proof. vm_compute. reflexivity. Qed.
+
+(** descriptor sessions: a truncate after a flush reaches the file although nothing is written after it *)
+Example C19_fd_example :
+  snd (t_run newdir [OCreate [4]; OFd [4] false [AWrite [104; 101; 108; 108; 111; 32; 119]; AFlush; ATrunc 5]; ORead [4]]) =
+  [ROk; RSess [[104; 101; 108; 108; 111; 32; 119]; [104; 101; 108; 108; 111]]; RData [104; 101; 108; 108; 111]].
+Proof. vm_compute. reflexivity. Qed.
